@@ -11,7 +11,7 @@ SRC=/verif/seeded/$PID-incoming
 PATCH=$SRC/$V.patch.diff; [ -f $PATCH ] || PATCH=$SRC/patch.diff
 DEMO=$SRC/${V}_demo_test.go; [ -f $DEMO ] || DEMO=$(ls $SRC/*_test.go | head -1)
 META=$SRC/$V.meta.json; [ -f $META ] || META=$SRC/meta.json
-PKG=$(python3 -c "import json;print(json.load(open('$META')).get('package_dir_of_demo','').strip('./'))")
+PKG=$(python3 -c "import json;m=json.load(open('$META'));print((m.get('package_dir_of_demo') or m.get('demo',{}).get('package_dir') or '').strip('./'))")
 export GOFLAGS=-mod=mod GOPROXY=off GOSUMDB=off GOTOOLCHAIN=local
 W=/tmp/wt/sv-$PID-$V
 git -C /repo worktree remove --force $W 2>/dev/null
